@@ -246,6 +246,11 @@ def stepD (st : DSt) (fs : List String) : DSt × String :=
     match n.toNat?, k.toNat? with
     | some n, some k => if n = 0 ∨ k ≥ n then (st, "bad-op") else (st, "ok|token:gone")
     | _, _ => (st, "bad-op")
+  | ["sealdenied", n, "ns"] =>
+    -- the same with a token of a child namespace: the use step is the token's, whatever namespace the request names
+    match n.toNat? with
+    | some n => if n = 0 then (st, "bad-op") else (st, "denied|token:gone")
+    | none => (st, "bad-op")
   | ["sealdenied", n] =>
     -- n-1 leased uses through handleRequest, then a denied sys/seal (Core.sealInitCommon) as the n-th use: the use step
     -- counts it, so the token has spent its n uses: revoked, with the n-1 leases it obtained (`C19.spent_token_revoked_any_entry`)
